@@ -128,7 +128,7 @@ func genMux(p *simkit.Plan, r *simkit.Rand, tier string) {
 	}
 	weights := map[string][]int{
 		// write read zero-read zero-write closewrite close rdeadline wdeadline sleep extra-open extra-accept muxclose
-		"streams": {30, 30, 0, 0, 4, 3, 2, 2, 3, 0, 0, 0},
+		"streams": {30, 30, 3, 2, 4, 3, 2, 2, 3, 0, 0, 0},
 		"conform": {22, 22, 8, 5, 5, 5, 6, 6, 4, 4, 2, 0},
 		"stall":   {30, 10, 2, 2, 4, 5, 8, 8, 5, 8, 3, 1},
 	}[prof]
